@@ -21,6 +21,11 @@ func runC07(c *Ctx) {
 	L := c.L
 	c.checkNaNClamp()
 	c.checkMutationClasses("mutation-classes")
+	if c.Thorough() {
+		c.checkIntQuotientShares("truncated-share")
+	} else {
+		c.checkIntQuotientShares("truncated-share", "distance/dna", "align")
+	}
 	c.checkIupacPairTables("iupac-pair-tables")
 	c.checkDiagonalNotComputed("diagonal-not-computed")
 	c.checkSymmetricStores(c.fn("distance/dna", "", "DistMatrix"), "outmatrix")
